@@ -25,10 +25,11 @@ def kind_of(v, cls=None):
 
 
 TEXTS = {
-    "int": [b"0", b"1", b"-7", b"+5", b"123", b"9223372036854775807", b"007", b"-9223372036854775808"],
+    "int": [b"0", b"1", b"-7", b"+5", b"123", b"9223372036854775807", b"007", b"-9223372036854775808", b"010", b"-012", b"0009", b"+08"],
     "real": [b"1.5", b"-0.25", b"1e3", b"2.5E-3", b".5", b"5."],
     "time": [b"2006-01-02 15:04:05", b"2023-12-31 23:59:59.123", b"1999-01-01 00:00:00"],
-    "other": [b"", b"abc", b"123test", b" 5", b"5 ", b"1,5", b"2006-01-02", b"1 2", b"--1", "é".encode(), b"12:00", b"2006-01-02T15:04:05"],
+    "other": [b"", b"abc", b"123test", b" 5", b"5 ", b"1,5", b"2006-01-02", b"1 2", b"--1", "é".encode(), b"12:00", b"2006-01-02T15:04:05",
+              b"0b11", b"0o17", b"0x", b"1e", b"e5", b"0b", b"1__0"],
 }
 INTS = [0, 1, -1, 127, 2 ** 31 - 1, 2 ** 31, -2 ** 31 - 1, 2 ** 53 + 1, 2 ** 63 - 1, -2 ** 63, 86400]
 REALS = [0.0, 1.5, -2.75, 1e10, 2.0 ** 63, -1e19, 1e300, float("inf"), 5e-324, 3.999]
@@ -203,7 +204,8 @@ def run(tier):
         if m[0] == "life":
             lf = rs.get("life") or {}
             ev = {"ev": "life", "panic": bool(rs.get("panic")) or bool(rs.get("err"))}
-            for k in ("reread_same_handle", "reread_fresh_handle", "string_after_mutate", "other_slice_after_mutate", "after_close", "after_overwrite"):
+            for k in ("reread_same_handle", "reread_fresh_handle", "string_after_mutate", "other_slice_after_mutate", "after_close", "after_overwrite",
+                      "kept_after_rescan"):
                 ev[k] = bool(lf.get(k))
             events.append(ev)
             v.nontrivial(m)
